@@ -26,7 +26,7 @@ ASSUMPTIONS = [
     "OrderedDict counts as dict; PyVarBind (a tuple subclass) and BulkResult are the documented containers",
 ]
 PROBES = ["timeticks", "ipaddress", "oid_value", "counter64", "opaque", "exception_marker", "bulkget_keys", "table_rows",
-          "multiset_keys", "v1", "v3"]
+          "multiset_keys", "v1", "v3", "sparse_table", "set_confirmed_differently"]
 shrink_lists = [("mib",)]
 OPS = ["get", "getnext", "multiget", "set", "multiset", "walk", "multiwalk", "bulkwalk", "bulkget", "table", "bulktable"]
 BASE = (1, 3, 6, 1, 2, 1, 7)
@@ -43,9 +43,16 @@ def plan_for(tier: str, seed: int, i: int) -> dict:
     version = proto["version"]
     kinds = [k for k in gen.ALL_KINDS if not (version == "v1" and k == "c64")]
     mib = {}
+    density = rng.choice([1.0, 1.0, 0.7, 0.5])      # sparse tables: rows lacking columns other rows have
+    rows = [(r,) for r in range(1, rng.randrange(2, 5))]
+    if rng.random() < 0.25:
+        rows = [(r, rng.randrange(0, 300)) for r in range(1, rng.randrange(2, 5))]   # two-component index
     for c in range(1, rng.randrange(2, 5)):
-        for r in range(1, rng.randrange(2, 5)):
-            mib[BASE + (1, c, r)] = gen.gen_value(rng, kinds=kinds, max_str=30)
+        for r in rows:
+            if rng.random() <= density:
+                mib[BASE + (1, c) + r] = gen.gen_value(rng, kinds=kinds, max_str=30)
+    if not mib:
+        mib[BASE + (1, 1) + rows[0]] = gen.gen_value(rng, kinds=kinds, max_str=30)
     keys = sorted(mib)
     opk = rng.choice([k for k in OPS if not (version == "v1" and k.startswith("bulk"))])
     if opk in ("get",):
@@ -75,7 +82,8 @@ def plan_for(tier: str, seed: int, i: int) -> dict:
         op = {"op": opk, "oid": BASE + (1,)}
     else:
         op = {"op": opk, "oid": BASE, "bulk": rng.choice([1, 3, 10])}
-    return {"prop": ID, "proto": proto, "mib": sorted(mib.items()), "op": op}
+    # the agent may confirm a SET with the value it actually stored (normalised), not the one it was sent
+    return {"prop": ID, "proto": proto, "mib": sorted(mib.items()), "op": op, "normalise": rng.random() < 0.5}
 
 
 def simplify(plan: dict):
@@ -143,9 +151,22 @@ def _normalise_py(opk: str, res: Any) -> Any:
     return res
 
 
+def _normalise_set(oid: tuple, val: Any) -> Any:
+    kind, v = val
+    if kind in ("str", "opaque"):
+        return (kind, bytes(v)[:8])                  # truncated
+    if kind in ("int",):
+        return (kind, max(-1000, min(1000, v)))      # clamped
+    if kind in ("c32", "g32", "tt"):
+        return ("tt", v)                             # re-typed by the object's syntax
+    return val
+
+
 def _run(plan: dict, pythonic: bool) -> dict:
     w = World()
     agent = w.add_agent(agent_for(plan["proto"], dict(plan["mib"])))
+    if plan.get("normalise"):
+        agent.set_normalise = _normalise_set
     client = w.client(plan["proto"], timeout=1, retries=1)
     res = exc = None
 
@@ -199,6 +220,9 @@ def execute(plan: dict) -> dict:
         "bulkget_keys": int(opk == "bulkget" and a["exc"] is None), "table_rows": int(opk in ("table", "bulktable") and bool(a["res"])),
         "multiset_keys": int(opk == "multiset" and a["exc"] is None),
         "v1": int(plan["proto"]["version"] == "v1"), "v3": int(plan["proto"]["version"] == "v3"),
+        "sparse_table": int(opk in ("table", "bulktable") and a["exc"] is None and len(set(len(r) for r in a["res"])) > 1),
+        "set_confirmed_differently": int(opk in ("set", "multiset") and a["exc"] is None and bool(plan.get("normalise"))
+                                         and _set_differs(plan["op"], b["res"])),
     }
     counters = dict(a["counters"])
     for kk, v in probes.items():
@@ -209,6 +233,12 @@ def execute(plan: dict) -> dict:
         "nontrivial": a["exc"] is None, "sim_s": a["sim_s"] + b["sim_s"], "exchanges": a["exchanges"] + b["exchanges"],
         "summary": "%s -> %s" % (opk, an or "ok"),
     }
+
+
+def _set_differs(op: dict, raw: Any) -> bool:
+    if op["op"] == "set":
+        return tuple(op["val"]) != tuple(raw)
+    return sorted((tuple(o), tuple(v)) for o, v in op["items"]) != sorted((tuple(o), tuple(v)) for o, v in raw)
 
 
 def _kinds(raw: Any) -> List[str]:
